@@ -212,8 +212,9 @@ class Model(object):
             for d in dmel.children:
                 if d.tag == "data":
                     if d.xpath() in self.fail_elems:
-                        self.iq.append("error.execution")
-                        self.tokens.append(("r", "error.execution"))
+                        name = self.fail_elems[d.xpath()] if isinstance(self.fail_elems, dict) else "error.execution"
+                        self.iq.append(name)
+                        self.tokens.append(("r", name))
                         continue
                     ast = d.meta.get("expr_ast")
                     self.data[d.attrs["id"]] = self.ev(ast) if ast is not None else 0
